@@ -18,6 +18,7 @@ import common
 import coreops
 import fbagen
 import lpcert
+import auxcorr
 from c07 import ev, parse_rule
 from c09 import moma_lp
 
@@ -243,6 +244,29 @@ def public(case):
     return {k: v for k, v in case.items() if not k.startswith("_")}
 
 
+def aux_stage(ctx):
+    """The problem each reaction deletion hands to GLPK (FBA and linear MOMA) vs the Lean builders on the knocked-out content; returns oracle
+    cases on the models where they differ."""
+    def gen(rng):
+        return gen_case(rng)["spec"]
+
+    def f_del(method):
+        def f(make, spec, rng):
+            m = make()
+            rids = [r.id for r in m.reactions]
+            sub = rng.sample(rids, rng.randint(1, min(4, len(rids))))
+            return auxcorr.pairs_deletions(m, sub, method)
+        return f
+    mism = auxcorr.stage(ctx, [("single_reaction_deletion(fba)", f_del("fba")), ("single_reaction_deletion(linear moma)", f_del("linear moma"))],
+                         gen, ctx.scale(40, 500))
+    cases = []
+    for mm in mism[:6]:
+        rids = [r["id"] for r in mm["spec"]["rxns"]]
+        cases.append({"spec": mm["spec"], "kind": "single_rxn", "method": "linear moma" if "moma" in mm["label"] else "fba", "as_objects": False,
+                      "ref_order": "model", "l1": None, "_pool": rids})
+    return cases
+
+
 def run(ctx):
     if getattr(ctx, "replay", None):
         data = json.loads(open(ctx.replay).read())
@@ -254,7 +278,8 @@ def run(ctx):
                 print(f"VIOLATION property=C06 replay={ctx.replay}")
                 return 1
         return 0
-    common.proof_stage(ctx, "CobraModel.Props.C06", extra_scan=["CobraModel/Lemmas/Core.lean", "CobraModel/Lemmas/LP.lean"])
+    common.proof_stage(ctx, "CobraModel.Props.C06", extra_scan=["CobraModel/Lemmas/Core.lean", "CobraModel/Lemmas/LP.lean"] + auxcorr.SCAN)
+    directed = aux_stage(ctx)
     rng = ctx.rng
     n = ctx.scale(200, 4000)
     ran, tries = 0, 0
@@ -263,7 +288,7 @@ def run(ctx):
     samples = []
     while ran < n and tries < n * 5 and not ctx.violations:
         tries += 1
-        case = gen_case(rng)
+        case = directed.pop(0) if directed else gen_case(rng)
         fails, why = check_case(case)
         if fails is None:
             skipped[why] = skipped.get(why, 0) + 1
